@@ -20,6 +20,8 @@ type Step struct {
 	Tx     string `json:"tx,omitempty"`
 	EP     string `json:"endpoint,omitempty"`
 	N      int    `json:"n,omitempty"`
+	Sym    string `json:"symbol,omitempty"` // settoken: the token contract (Tx = contract id) now reports this metadata
+	Nam    string `json:"name,omitempty"`
 }
 
 func (s Step) String() string {
@@ -40,6 +42,8 @@ func (s Step) String() string {
 		return "reobs(tx " + s.Tx[len(s.Tx)-2:] + ")"
 	case "fault", "hold", "release":
 		return s.Op + "(" + s.EP + ")"
+	case "settoken":
+		return fmt.Sprintf("settoken(..%s: %s/%s/%d)", s.Tx[len(s.Tx)-4:], s.Sym, s.Nam, s.N)
 	case "countlag", "pagesize":
 		return fmt.Sprintf("%s=%d", s.Op, s.N)
 	}
@@ -118,6 +122,10 @@ func (w *World) Apply(s Step) []Forward {
 		w.Sim.Reinclude(s.Tx, w.ensureBlock(s.Block, s.Height))
 	case "fault":
 		w.Sim.Fail(s.EP, 1)
+	case "settoken":
+		w.Sim.mu.Lock()
+		w.Sim.Tokens[AddressOf(s.Tx)] = TokenAnswer{Kind: "ok", Symbol: s.Sym, Name: s.Nam, Decimals: s.N}
+		w.Sim.mu.Unlock()
 	case "hold":
 		w.Sim.HoldEndpoint(s.EP)
 	case "release":
